@@ -83,13 +83,24 @@ def _run_chunk(root, cases, workdir, tag, sanitize, timeout, max_crashes=40, wor
             kind = "asan"
         elif "runtime error" in err:
             kind = "ubsan"
-        results[k] = [kind, p.returncode, _first_report_line(err)]
+        results[k] = [kind, p.returncode, _first_report_line(err), _frames(err)]
         ncrash += 1
         start = k + 1
     for i, line in ub.items():
         if results.get(i, ["missing"])[0] in ("ok", "exc"):
             results[i] = ["ubsan", 0, line, results[i]]       # the report AND what the call returned
     return [results.get(i, ["missing"]) for i in range(len(cases))]
+
+
+def _frames(err):
+    """the innermost fastparquet frames of a sanitizer report (function names), innermost first"""
+    import re
+    out = []
+    for line in err.split("\n"):
+        m = re.search(r"#\d+ 0x[0-9a-f]+ in __pyx_[a-z]+_\d+fastparquet_\d+(?:cencoding|speedups)_(?:\d+)?(\w+)", line)
+        if m and m.group(1) not in out:
+            out.append(m.group(1))
+    return out[:3]
 
 
 def _first_report_line(err):
